@@ -205,6 +205,7 @@ PROPS["C13"] = dict(
     rule="generated real-time time-lines, 8 per case in parallel",
     steps=[
         dict(test="^TestC13_Timelines$", quick=dict(checks=3, timeout=900, shrink="1s"), thorough=dict(checks=6, shards=8, timeout=3000, shrink="1s")),
+        dict(test="^TestC13_StalledWriter$", quick=dict(timeout=300), thorough=dict(timeout=600)),
     ],
 )
 
